@@ -32,6 +32,16 @@ theorem compressed_stream_roundtrip {K' : Type} (enc : K → Option K → K') (d
   obtain ⟨cs, h1, h2⟩ := compress_roundtrip enc dec hcodec d t hr hp ⟨none, []⟩ ⟨none, [], []⟩ rfl
   exact ⟨cs, by rw [h1]; rfl, by rw [h2]; rfl⟩
 
+/-- the whole compressed pipeline: compress the export of a persisted AVL tree, decompress it, import it
+    into an empty importer - the result is exactly that tree -/
+theorem import_of_compressed_export {K' : Type} (enc : K → Option K → K') (dec : K' → Option K → K)
+    (hcodec : ∀ k last, dec (enc k last) last = k)
+    (t : Node K V) (dfltV : V) (d : Nat) (ha : AVL t) (hs : AllSaved t) (hr : RoutingFirst t) (hp : PosHeight t) :
+    ∃ cs, (cexpAll enc ⟨none, []⟩ (exportNodes d t)).map (·.2) = some cs ∧
+      ∃ ens, (cimpAll dec ⟨none, [], []⟩ cs).map (·.2) = some ens ∧ importAll [] ens dfltV = [t] := by
+  obtain ⟨cs, h1, h2⟩ := compressed_stream_roundtrip enc dec hcodec d t hr hp
+  exact ⟨cs, h1, exportNodes d t, h2, import_of_export t dfltV d ha hs⟩
+
 /-- for **every** node (any height, version, nil key/value) on **every** stack, `Importer.Add`
     returns or errors; it never reaches a Go panic -/
 theorem importer_add_total (importVer : Int) (stack : List ImpEntry) (en : Option RawNode) :
